@@ -53,6 +53,16 @@ class C01(Check):
             if rng.random() < 0.04:
                 keep.append(rng.choice(c1["ins"] or ["zz"]))
             out.append({"op": "compose", "c1": c1, "c2": c2, "keep": keep, "simplify": rng.random() < 0.6, "order": rand_order(rng), "w": w})
+        # twins: two consecutive compositions whose operands PRINT alike (the producer's coefficient differs beyond the fourth
+        # significant digit).  Consecutive cases run in the same worker process: anything carried over from the first call (a memo
+        # keyed on the printed form, a mutated default) shows in the second, whose composite assumption must use ITS coefficient.
+        for _ in range(max(10, n // 30)):
+            base = round(rng.uniform(1.1, 2.9), 3)
+            kk = float(rng.choice([100, 300, 500]))
+            for cc in (base + 0.0001, base + 0.0004):
+                prod = {"ins": ["x"], "outs": ["u"], "a": [], "g": [{"c": {"u": 1.0, "x": -cc}, "k": 0.0}]}
+                cons = {"ins": ["u"], "outs": ["o"], "a": [{"c": {"u": 1.0}, "k": kk}], "g": [{"c": {"o": 1.0, "u": -1.0}, "k": 0.0}]}
+                out.append({"op": "compose", "c1": prod, "c2": cons, "keep": [], "simplify": True, "order": [1, 2, 3, 4, 5], "w": "twin"})
         return out
 
     def run_impl(self, case):
